@@ -505,9 +505,16 @@ func (h *Hashgraph) updateAncestorFirstDescendant(event *Event) error {
 				// Stopping condition. We don't want to go all the way down to
 				// the bottom of the hashgraph (which could happen if the event
 				// is from a new participant). So we stop at the ancestors that
-				// are witnesses.
-				if w, err := h.witness(ah); err == nil && w {
-					break
+				// are witnesses. Only ancestors that already went through
+				// DivideRounds are considered: computing (and caching) the
+				// round of an ancestor here, while the RoundInfo of its parent
+				// round may still lack witnesses that are inserted but not yet
+				// divided, would memoise a wrong round when several events are
+				// inserted between two consensus passes.
+				if a.round != nil {
+					if w, err := h.witness(ah); err == nil && w {
+						break
+					}
 				}
 				ah = a.SelfParent()
 			} else {
